@@ -217,9 +217,14 @@ class RSync:
             and not self._sourcedir.startswith("\\\\?\\")
         ):
             sourcedir = "\\\\?\\" + self._sourcedir
-        try:
-            relpath = os.path.relpath(linkpoint, sourcedir)
-        except ValueError:
+        if os.path.isabs(linkpoint):
+            try:
+                relpath = os.path.relpath(linkpoint, sourcedir)
+            except ValueError:
+                relpath = None
+        else:
+            # a relative link is relative to its own directory, not to the
+            # caller's working directory: send it as it is
             relpath = None
         if (
             relpath is not None
